@@ -667,8 +667,8 @@ def run(tier, seed, replay=None):
         return tid
 
     # code -> spec (while TLC runs): real Simulations and seeded direct drive
-    n_sim = 60 if quick else 600
-    n_wr = 25 if quick else 250
+    n_sim = 60 if quick else 500
+    n_wr = 25 if quick else 200
     n_wa = 35 if quick else 300
     phi_traces = []
     for k in range(n_sim):
